@@ -52,6 +52,7 @@ def k1(ctx, kr):
             _add(kr, 'C13/K1/contract/%s' % ('ok' if expect_ok else ('sem-error' if cok else 'create-error')),
                  'check(): result %s, OK printed %d times, %d diagnostics emitted, although create_project %s and semantic() %s' % ('Ok' if is_ok else 'Err', prints, ndiag, 'succeeded' if cok else 'failed', 'succeeded' if sok else 'failed'),
                  wit, ('cli_check', (['good' if sok else 'bad_sem'],)))
+        elif cok and len(kr.validate) < 2: kr.validate.append(('cli_check', (['good' if sok else 'bad_sem'],)))
         if len(kr.samples) < 3: kr.samples.append({'outcomes': wit, 'result': 'Ok' if is_ok else 'Err', 'ok_lines': prints, 'diagnostics': ndiag})
     M.explore(entry, on_path)
     kr.queries += M.stats['smt']
@@ -118,6 +119,7 @@ def k3(ctx, kr):
             if pushes != want: _add(kr, 'C13/K3/files-not-pushed', 'files handed to the project %s differ from the enumerated files %s' % (pushes, want), wit, None)
             if is_ok != all(pok.values()): _add(kr, 'C13/K3/read-error-forgotten', 'create_project returns %s although the file read outcomes are %s' % ('Ok' if is_ok else 'Err', pok), wit, None)
             if not all(pok.values()) and ndiag == 0: _add(kr, 'C13/K3/read-error-silent', 'a file that cannot be read produces no diagnostic', wit, None)
+            if all(pok.values()) and len(kr.validate) < 4: kr.validate.append(('cli_missing', ([True] * n,)))
             if len(kr.samples) < 3: kr.samples.append({'outcomes': wit, 'result': 'Ok' if is_ok else 'Err', 'pushed': pushes})
         M.explore(entry, on_path)
     kr.queries += M.stats['smt']
@@ -136,7 +138,8 @@ def _replay_cli_missing(eok):
             if okk: open(p, 'w').write(GOOD % i)
             args.append(p)
         r = subprocess.run([ctx.ironplcc_path(), 'check'] + args, capture_output=True, text=True, timeout=60)
-        return r.returncode == 0 or 'OK' in r.stdout.split(), {'args_exist': eok, 'exit': r.returncode, 'stdout': r.stdout[:80], 'stderr': r.stderr[:200]}
+        expect_ok = all(eok)
+        return ((r.returncode == 0) != expect_ok) or (('OK' in r.stdout.split()) != expect_ok), {'args_exist': eok, 'exit': r.returncode, 'stdout': r.stdout[:80], 'stderr': r.stderr[:200]}
     return rp
 
 # ---------------------------------------------------------------------------------------------- K2 tokenize(): Ok <=> every file tokenizes
